@@ -523,3 +523,195 @@ Qed.
 
 Lemma run_steps_app v n h s1 s2 : run_steps v n h (s1 ++ s2) = run_steps v n (run_steps v n h s1) s2.
 Proof. unfold run_steps. apply fold_left_app. Qed.
+
+(** * [calculate_add] of an input variable is the entity-wise sum over the sub-periods *)
+
+Lemma ent_aadd : forall r e i, length r = length e -> (ent i (aadd r e) == ent i r + ent i e)%Q.
+Proof.
+  induction r as [|x r IH]; intros [|y e] i Hl; try discriminate.
+  - unfold aadd, ent. cbn [combine map]. destruct i; cbn [nth]; ring.
+  - destruct i; unfold aadd, ent; cbn [combine map nth fst snd].
+    + reflexivity.
+    + apply IH. cbn in Hl. lia.
+Qed.
+
+Lemma length_aadd r e : length r = length e -> length (aadd r e) = length r.
+Proof. intros H. unfold aadd. rewrite map_length, combine_length. lia. Qed.
+
+Lemma length_zeros n : length (zeros n) = Z.to_nat n.
+Proof. unfold zeros, zrange. rewrite !map_length, seq_length. reflexivity. Qed.
+
+Lemma ent_zeros n i : ent i (zeros n) = 0%Q.
+Proof.
+  unfold zeros, ent. generalize (zrange n). intros l. revert i.
+  induction l as [|x l IH]; intros [|i]; cbn [map nth]; auto.
+Qed.
+
+Lemma length_getd v n h t : eternal v = false -> wf_holder n h -> length (getd v n h t) = Z.to_nat n.
+Proof.
+  intros He Hw. unfold getd. rewrite holder_get_ne by assumption.
+  destruct (get h t) as [e|] eqn:G; [apply Hw in G; lia|apply length_zeros].
+Qed.
+
+Lemma sum_tiles_ent v n h : eternal v = false -> wf_holder n h -> forall T i,
+  (ent i (sum_tiles v n h T) == qsum (map (val v n h i) T))%Q.
+Proof.
+  intros He Hw T i. unfold sum_tiles.
+  assert (G : forall acc, length acc = Z.to_nat n ->
+            (ent i (fold_left (fun acc t => aadd acc (getd v n h t)) T acc)
+             == ent i acc + qsum (map (val v n h i) T))%Q).
+  { induction T as [|t T IH]; intros acc Hl; cbn [fold_left map].
+    - unfold qsum; cbn [fold_right]. ring.
+    - rewrite IH by (rewrite length_aadd; rewrite ?length_getd; assumption).
+      rewrite ent_aadd by (rewrite length_getd; assumption).
+      unfold qsum; cbn [fold_right]. unfold val. ring. }
+  rewrite G by apply length_zeros. rewrite ent_zeros. ring.
+Qed.
+
+(** * The theorems of props/C16.v *)
+
+Lemma map_cast_float a : map (cast VFloat) a = a.
+Proof. induction a as [|x a IH]; cbn [map cast]; [reflexivity|]. rewrite IH. reflexivity. Qed.
+
+(** divide rule, any list of sub-period keys *)
+Definition divide_tiles_conserves_statement : Prop :=
+  forall (v : var) (n : Z) (h : holder) (T : list period) (a : arr),
+  eternal v = false -> wf_holder n h -> Z.of_nat (length a) = n -> Forall (tile_ok v) T ->
+  (0 < n_unknown v h T ->
+     exists h', divide_tiles v n h T a = Ok h' /\ wf_holder n h'
+       /\ (forall q x, get h q = Some x -> get h' q = Some x)
+       /\ (forall q, ~ In q T -> get h' q = get h q)
+       /\ (forall t, In t T -> get h t = None ->
+             exists x, get h' t = Some x /\ length x = length a /\
+               forall i, (i < length a)%nat -> (ent i x == cast (v_type v) (share v n h T a i))%Q)
+       /\ (forall i, (i < length a)%nat ->
+             (cast (v_type v) (share v n h T a i) == share v n h T a i)%Q ->
+             (qsum (map (val v n h' i) T) == ent i a)%Q))
+  /\ (n_unknown v h T = 0 ->
+       ((forall i, (i < length a)%nat -> (remainder v n h T a i == 0)%Q) ->
+          divide_tiles v n h T a = Ok h
+          /\ forall i, (i < length a)%nat -> (qsum (map (val v n h i) T) == ent i a)%Q)
+       /\ ((exists i, (i < length a)%nat /\ ~ (remainder v n h T a i == 0)%Q) ->
+          divide_tiles v n h T a = Err EValue)).
+
+Lemma divide_tiles_conserves_proof : divide_tiles_conserves_statement.
+Proof.
+  intros v n h T a He Hw Ha HT. split.
+  - apply divide_tiles_fill; assumption.
+  - apply divide_tiles_full; assumption.
+Qed.
+
+(** divide rule, the real entry point, after any history *)
+Definition divide_conserves_statement : Prop :=
+  forall (v : var) (n : Z) (steps : list (period * arr)) (P : period) (a : arr) (T : list period),
+  v_rule v = RDivide -> eternal v = false -> not_after_end v P -> p_unit P <> Eternity ->
+  Z.of_nat (length a) = n -> walk_tiles v P = Ok T ->
+  let h := run_steps v n [] steps in
+  let a' := map (cast (v_type v)) a in
+  (0 < n_unknown v h T ->
+     exists h', sim_set_input v n h P a = Ok h' /\ wf_holder n h'
+       /\ (forall q x, get h q = Some x -> get h' q = Some x)
+       /\ (forall q, ~ In q T -> get h' q = get h q)
+       /\ (forall t, In t T -> get h t = None ->
+             exists x, get h' t = Some x /\ length x = length a /\
+               forall i, (i < length a)%nat -> (ent i x == cast (v_type v) (share v n h T a' i))%Q)
+       /\ (forall i, (i < length a)%nat ->
+             (cast (v_type v) (share v n h T a' i) == share v n h T a' i)%Q ->
+             (qsum (map (val v n h' i) T) == ent i a')%Q))
+  /\ (n_unknown v h T = 0 ->
+       ((forall i, (i < length a)%nat -> (remainder v n h T a' i == 0)%Q) ->
+          sim_set_input v n h P a = Ok h
+          /\ forall i, (i < length a)%nat -> (qsum (map (val v n h i) T) == ent i a')%Q)
+       /\ ((exists i, (i < length a)%nat /\ ~ (remainder v n h T a' i == 0)%Q) ->
+          sim_set_input v n h P a = Err EValue)).
+
+Lemma divide_conserves_proof : divide_conserves_statement.
+Proof.
+  intros v n steps P a T Hr He Hend Hp Ha HT h a'.
+  assert (Hw : wf_holder n h) by (apply run_steps_wf, wf_nil).
+  rewrite (sim_set_input_divide v n h P a T Hr He Hend Hp Ha HT). fold a'.
+  assert (La : length a' = length a) by (unfold a'; apply map_length).
+  assert (Ha' : Z.of_nat (length a') = n) by (rewrite La; assumption).
+  pose proof (walk_tiles_ok v P T HT) as Hok.
+  destruct (divide_tiles_conserves_proof v n h T a' He Hw Ha' Hok) as [C1 C2].
+  rewrite La in C1, C2. split; assumption.
+Qed.
+
+(** float variables: no side condition on the share *)
+Lemma divide_conserves_float_proof :
+  forall (v : var) (n : Z) (steps : list (period * arr)) (P : period) (a : arr) (T : list period),
+  v_type v = VFloat ->
+  v_rule v = RDivide -> eternal v = false -> not_after_end v P -> p_unit P <> Eternity ->
+  Z.of_nat (length a) = n -> walk_tiles v P = Ok T ->
+  let h := run_steps v n [] steps in
+  0 < n_unknown v h T ->
+  exists h', sim_set_input v n h P a = Ok h'
+    /\ forall i, (i < length a)%nat -> (qsum (map (val v n h' i) T) == ent i a)%Q.
+Proof.
+  intros v n steps P a T Hf Hr He Hend Hp Ha HT h Hk.
+  destruct (divide_conserves_proof v n steps P a T Hr He Hend Hp Ha HT) as [C _].
+  destruct (C Hk) as [h' [E [_ [_ [_ [_ S]]]]]]. exists h'. split; [assumption|].
+  intros i Hi. specialize (S i Hi). rewrite Hf in S. rewrite map_cast_float in S.
+  apply S. reflexivity.
+Qed.
+
+(** dispatch rule, any list of sub-period keys *)
+Definition dispatch_tiles_repeats_statement : Prop :=
+  forall (v : var) (n : Z) (h : holder) (T : list period) (a : arr),
+  eternal v = false -> wf_holder n h -> Z.of_nat (length a) = n -> Forall (tile_ok v) T ->
+  exists h', dispatch_tiles v n h T a = Ok h' /\ wf_holder n h'
+    /\ (forall q x, get h q = Some x -> get h' q = Some x)
+    /\ (forall q, ~ In q T -> get h' q = get h q)
+    /\ (forall t, In t T -> get h t = None -> get h' t = Some (map (cast (v_type v)) a)).
+
+(** dispatch rule, the real entry point, after any history *)
+Definition dispatch_repeats_statement : Prop :=
+  forall (v : var) (n : Z) (steps : list (period * arr)) (P : period) (a : arr) (T : list period),
+  v_rule v = RDispatch -> eternal v = false -> not_after_end v P -> p_unit P <> Eternity ->
+  Z.of_nat (length a) = n -> walk_tiles v P = Ok T ->
+  let h := run_steps v n [] steps in
+  exists h', sim_set_input v n h P a = Ok h' /\ wf_holder n h'
+    /\ (forall q x, get h q = Some x -> get h' q = Some x)
+    /\ (forall q, ~ In q T -> get h' q = get h q)
+    /\ (forall t, In t T -> get h t = None -> get h' t = Some (map (cast (v_type v)) a)).
+
+Lemma dispatch_repeats_proof : dispatch_repeats_statement.
+Proof.
+  intros v n steps P a T Hr He Hend Hp Ha HT h.
+  assert (Hw : wf_holder n h) by (apply run_steps_wf, wf_nil).
+  rewrite (sim_set_input_dispatch v n h P a T Hr He Hend Hp Ha HT).
+  pose proof (walk_tiles_ok v P T HT) as Hok.
+  destruct (dispatch_tiles_repeats v n h T (map (cast (v_type v)) a) He Hw
+              ltac:(rewrite map_length; assumption) Hok) as [h' [E [W [F1 [F2 F3]]]]].
+  exists h'. rewrite map_cast_idem in F3. repeat split; assumption.
+Qed.
+
+(** order effects: whatever is known at some point of a history of a variable with a rule
+    is never changed by the rest of the history *)
+Lemma later_inputs_only_fill_unknown_proof :
+  forall (v : var) (n : Z) (s1 s2 : list (period * arr)) (q : period) (x : arr),
+  v_rule v <> RNone ->
+  get (run_steps v n [] s1) q = Some x -> get (run_steps v n [] (s1 ++ s2)) q = Some x.
+Proof.
+  intros v n s1 s2 q x Hr H. rewrite run_steps_app. apply run_steps_persist; assumption.
+Qed.
+
+(** a refused or dropped input leaves the holder as it was, by definition of [step_holder];
+    an accepted one keeps every stored array of the population's length *)
+Lemma history_wf_proof : forall v n steps, wf_holder n (run_steps v n [] steps).
+Proof. intros. apply run_steps_wf, wf_nil. Qed.
+
+(** * Concrete instances used by the non-vacuity examples of props/C16.v *)
+
+Definition arr_eqb (a b : arr) : bool :=
+  Nat.eqb (length a) (length b) && forallb (fun xy => Qeq_bool (fst xy) (snd xy)) (combine a b).
+Definition holds (h : res holder) (t : period) (x : arr) : bool :=
+  match h with
+  | Ok h' => match get h' t with Some y => arr_eqb y x | None => false end
+  | Err _ => false
+  end.
+Definition ex_month (t : vtype) (r : rule) : var := mkVar t Month r None.
+Definition ex_year_var (t : vtype) (r : rule) : var := mkVar t Year r None.
+Definition ex_2019 : period := (Year, (2019, 1, 1), 1).
+Definition ex_m (m : Z) : period := (Month, (2019, m, 1), 1).
+Definition ex_y (y : Z) : period := (Year, (y, 1, 1), 1).
